@@ -903,6 +903,13 @@ func (t *fnTrans) eventIf(cond, kind, a, b string) {
 	hv3 := t.h.reg("ghost:"+kind+".n", "Int")
 	c3 := t.h.get(t.cur, hv3)
 	t.h.set(t.cur, hv3, ite(cond, "(+ "+c3+" 1)", c3))
+	if kind == "called" {
+		// per-name count (called_since compares counts, so that an earlier call of the same
+		// name does not hide a missing one)
+		hv4 := t.h.reg("ghost:called.cnt", "(Array Int Int)")
+		c4 := t.h.get(t.cur, hv4)
+		t.h.set(t.cur, hv4, ite(cond, store(c4, a, "(+ "+sel(c4, a)+" 1)"), c4))
+	}
 }
 
 func (t *fnTrans) intSorted(term string) bool {
